@@ -63,6 +63,25 @@ def run_ops(case):
                 gc.collect()
                 series_ids[len(series_ids) + 1] = m._recurring_patterns[-1][0]
                 out.append([[r.success for r in res], []])
+            elif op[0] == "addmany":
+                # add(iterable of intervals): one call, one WriteResult per item
+                evs = [mk(*it) for it in op[1]]
+                res = m.add(evs)
+                flags = [r.success for r in res]
+                if len(flags) != len(evs):
+                    return {"err": f"add(list of {len(evs)}) returned {len(flags)} results"}
+                for f in flags:
+                    out.append([[f], []])
+            elif op[0] == "removemany":
+                # remove(iterable): one call, one WriteResult per item; modelled as the sequence of
+                # single removals (the observation is split accordingly)
+                evs = [mk(*it) for it in op[1]]
+                res = m.remove(evs)
+                flags = [r.success for r in res]
+                if len(flags) != len(evs):
+                    return {"err": f"remove(list of {len(evs)}) returned {len(flags)} results"}
+                for f in flags:
+                    out.append([[f], []])
             elif op[0] in ("remove", "rseries"):
                 ev = mk(op[1], op[2], op[3], op[4])
                 res = m.remove(ev) if op[0] == "remove" else m.remove_series(ev)
@@ -88,6 +107,10 @@ def coq_op(op):
         return f"(MAddPat {cz(k * DAY)} {cz(phase)} {cz(dur)} {tag}%N)"
     if op[0] == "remove":
         return f"(MRemove {coq_ev(op[1], op[2], op[3], op[4])})"
+    if op[0] == "removemany":
+        return "; ".join(f"(MRemove {coq_ev(*it)})" for it in op[1])
+    if op[0] == "addmany":
+        return "; ".join(f"(MAdd {coq_ev(*it)})" for it in op[1])
     if op[0] == "rseries":
         return f"(MRemoveSeries {coq_ev(op[1], op[2], op[3], op[4])})"
     return f"(MSlice {cz(op[1])} {cz(op[2])} {cbool(op[3])})"
@@ -161,6 +184,31 @@ class MemFamily(Family):
                     a = BASE + rng.choice([-2 * DAY, -DAY, 0, 2 * H, DAY, 2 * DAY])
                     b = a + rng.choice([H, 5 * H, DAY, 3 * DAY, 6 * DAY])
                     ops.append(["slice", a, b, rng.random() < 0.35])
+            # one case in four: merge a run of consecutive removals into one remove([...]) call,
+            # sometimes naming the same event twice in the batch
+            if rng.random() < 0.25:
+                merged = []
+                for o in ops:
+                    if o[0] == "remove" and merged and merged[-1][0] == "removemany" and len(merged[-1][1]) < 4:
+                        merged[-1][1].append(o[1:5])
+                    elif o[0] == "remove":
+                        merged.append(["removemany", [o[1:5]]])
+                    else:
+                        merged.append(o)
+                for o in merged:
+                    if o[0] == "removemany" and rng.random() < 0.5:
+                        o[1].append(list(rng.choice(o[1])))
+                # ... and runs of consecutive adds into add([...])
+                merged2 = []
+                for o in merged:
+                    item = (o[1:4] + [o[4] if len(o) > 4 else 0]) if o[0] == "add" else None
+                    if item and merged2 and merged2[-1][0] == "addmany" and len(merged2[-1][1]) < 3:
+                        merged2[-1][1].append(item)
+                    elif item and rng.random() < 0.5:
+                        merged2.append(["addmany", [item]])
+                    else:
+                        merged2.append(o)
+                ops = merged2
             ops.append(["slice", BASE - DAY, BASE + 5 * DAY, False])
             yield dict(ops=ops)
 
@@ -168,14 +216,15 @@ class MemFamily(Family):
         return run_ops(case)
 
     def coq_case(self, case, obs):
-        ops = clist([coq_op(o) for o in case["ops"]])
+        ops = clist([coq_op(o) for o in case["ops"] if not (o[0] in ("removemany", "addmany") and not o[1])])
         ob = clist([f"({clist([cbool(f) for f in fl])}, {clist([civl(r) for r in res])})" for fl, res in obs])
         return f"(mkMC {ops} {ob})"
 
     def shrink_candidates(self, case):
         ops = case["ops"]
         for i in range(len(ops)):
-            if ops[i][0] == "addpat" and any(o[0] in ("remove", "rseries", "add") and len(o) > 4 and o[4]
+            if ops[i][0] == "addpat" and any((o[0] in ("remove", "rseries", "add") and len(o) > 4 and o[4])
+                                             or (o[0] in ("removemany", "addmany") and any(it[3] for it in o[1]))
                                              for o in ops[i + 1:]):
                 continue      # dropping a pattern would renumber the series referred to later
             yield dict(ops=ops[:i] + ops[i + 1:])
@@ -184,7 +233,7 @@ class MemFamily(Family):
         return f"ops={case['ops']}"
 
     def nontrivial(self, case, obs):
-        return any(res for _, res in obs) and any(o[0] in ("remove", "rseries") for o in case["ops"])
+        return any(res for _, res in obs) and any(o[0] in ("remove", "rseries", "removemany") for o in case["ops"])
 
     def distribution(self, case, dist):
         for o in case["ops"]:
